@@ -546,7 +546,7 @@ func (x *c17Run) keys(seed int64, thorough bool) {
 		}
 	}
 	// account names and protocols
-	nameAlpha := []byte("aZ9@.-_/+ ~:")
+	nameAlpha := []byte("aZ9@.-_/+ ~:\\\t\x01%\xc3\xa9\xe2\x80\x8d") // incl. backslash, TAB, a control character, %, and the bytes of é and of U+200D
 	maxLen := 2
 	if thorough {
 		maxLen = 3
@@ -827,7 +827,7 @@ func (x *c17Run) wireIntegers(seed int64) {
 }
 
 func verifC17Run(r *verifReport) {
-	r.Rule = "exhaustive small-domain enumeration, full products per structure: integers {0,1,7f,80,ff,100,2^64-1,2^64,p-1,p,2^1535}, byte strings of length {0,1,2,255,256,65535,65536} (with a leading zero byte), TLV types 0..9 × value lengths {0,1,2,255,256,65535}, TLV lists of length 0..3, texts up to 70000 bytes, SMP questions up to 70000 bytes; value→bytes→value equality, length prefixes equal content lengths, minimal MPIs; bytes→value→bytes on every input a parser accepts among all byte strings ≤ 6 over {00,01,7f,80,ff}; DSA keys derived to hit odd hex digit counts / short x / short y / zero bytes, wire form, fingerprint against an independent SHA-1 over the specification's layout, key file export→import with every account name ≤ 2 (thorough: 3) characters over a 12-character alphabet, 6-account (thorough: also 11 and 16) files with the first account name grown one character at a time over a whole entry length (every token slid over every 4096-byte reader boundary), and readers that return at most c bytes per call (10 sizes; thorough: every c ≤ 4200); every integer a running conversation emits (g^y, the g^x committed to, next D-H keys) is minimal, with the randomness source scripted to tiny exponents so that these are 1 to 192 bytes long; non-trivial = non-empty / accepted"
+	r.Rule = "exhaustive small-domain enumeration, full products per structure: integers {0,1,7f,80,ff,100,2^64-1,2^64,p-1,p,2^1535}, byte strings of length {0,1,2,255,256,65535,65536} (with a leading zero byte), TLV types 0..9 × value lengths {0,1,2,255,256,65535}, TLV lists of length 0..3, texts up to 70000 bytes, SMP questions up to 70000 bytes; value→bytes→value equality, length prefixes equal content lengths, minimal MPIs; bytes→value→bytes on every input a parser accepts among all byte strings ≤ 6 over {00,01,7f,80,ff}; DSA keys derived to hit odd hex digit counts / short x / short y / zero bytes, wire form, fingerprint against an independent SHA-1 over the specification's layout, key file export→import with every account name ≤ 2 (thorough: 3) characters over a 20-byte alphabet (letters, digits, punctuation, blank, backslash, TAB, a control character, %, multi-byte UTF-8), 6-account (thorough: also 11 and 16) files with the first account name grown one character at a time over a whole entry length (every token slid over every 4096-byte reader boundary), and readers that return at most c bytes per call (10 sizes; thorough: every c ≤ 4200); every integer a running conversation emits (g^y, the g^x committed to, next D-H keys) is minimal, with the randomness source scripted to tiny exponents so that these are 1 to 192 bytes long; non-trivial = non-empty / accepted"
 	r.Assumptions = []string{"DSA keys share one parameter set (p,q,g); only x and y vary", "the encrypted-signature field is compared modulo its length prefix (the sender keeps it with, the parser returns it without)"}
 	x := &c17Run{r: r}
 	x.primitives()
